@@ -206,7 +206,13 @@ def run(ck):
     ok = len(ai) == 1 and 'name_to_idx[atom] for atom in interaction.atoms' in u(flow.subst(ai[0][0].args[1], ai[0][3])) \
         and top_loop(ai[0][0]) is not None and unconditional_in(tm, top_loop(ai[0][0]).body, ai[0][1])
     ae = calls_with_env(tm, lambda c: call_attr(c) == 'add_edge')
-    ok = ok and len(ae) == 1 and 'name_to_idx[node]' in u(ae[0][0]) and top_loop(ae[0][0]) is not None and unconditional_in(tm, top_loop(ae[0][0]).body, ae[0][1])
+    # both ends of an edge go through the table: as a generator over the pair, or spelled out end by end
+    def ends_ok(call, loop):
+        if 'name_to_idx[node]' in u(call):
+            return True
+        ends = [u(e) for e in loop.target.elts[:2]] if loop is not None and isinstance(loop.target, ast.Tuple) else []
+        return len(ends) == 2 and [u(a) for a in call.args[:2]] == ['name_to_idx[{}]'.format(e) for e in ends]
+    ok = ok and len(ae) == 1 and top_loop(ae[0][0]) is not None and ends_ok(ae[0][0], top_loop(ae[0][0])) and unconditional_in(tm, top_loop(ae[0][0]).body, ae[0][1])
     ck.ob('PROV-merge', mod.loc(tm), ok, 'Block.to_molecule rewrites every interaction atom and edge end through name_to_idx, unconditionally', key='PROV-merge|to_molecule|refs')
 
     # ------------------------------------------------------------ PAIR: removal purges interactions
